@@ -72,6 +72,12 @@ def cases(tier):
         sizes = r.sample([("A$", 10), ("B$", 200), ("NM$", 5), ("A$()", 40)], r.choice([0, 0, 1, 2]))
         out.append({"fmt": "cli", "kind": "cli", "name": r.choice(NAMES), "data": data, "flags": flags,
                     "storage": r.choice([32, 32, 80, 255]), "sizes": sizes})
+    # characters that Python's str.splitlines() treats as line boundaries but that are ordinary content
+    # of a string literal, a comment or a DATA item: only LF may become CR in the output
+    for k, ch in enumerate(["\x0b", "\x0c", "\x1c", "\x1d", "\x1e"]):
+        text = f'10 PRINT "A{ch}B"\n20 REM X{ch}Y\n30 DATA P{ch}Q,2\n40 A$="{ch}"\n'
+        out.append({"fmt": "cli", "kind": "cli-control-char", "name": "prog.bas", "data": text.encode(), "flags": "0000",
+                    "storage": 32, "sizes": []})
     for c in out:
         c["req"] = f"clicase {c['flags']} {c['storage']} {hexs(c['name'].encode())} {hexs(c['data'])}"
     return out
